@@ -105,7 +105,7 @@ impl Property for C26 {
         "a loaded key file may hold more keys than history+1 (stored with a larger history); only cookies issued after the load are judged",
     ];
     const QUICK_CASES: u32 = 120_000;
-    const THOROUGH_CASES: u32 = 2_400_000;
+    const THOROUGH_CASES: u32 = 3_600_000;
 
     fn strategy(tier: Tier) -> BoxedStrategy<Case> {
         (0u8..=4, start(), prop::collection::vec(op(), 0..tier.pick(40, 80)))
